@@ -169,6 +169,37 @@ SOURCE_TIES = {
 SOURCE_TIE_USERS = set().union(*[v['users'] for v in SOURCE_TIES.values()])
 
 
+def py_semantics():
+    """Src/Py.lean (the meaning the ties give to Python's primitives) against the interpreter that runs the library, on
+    generated arguments; cached on the files involved and the interpreter version"""
+    h = hashlib.sha256()
+    for f in (os.path.join(LEAN, 'HpackVerif', 'Src', 'Py.lean'), os.path.join(LEAN, 'PySem.lean'), os.path.join(ROOT, 'harness', 'pysem_check.py')):
+        h.update(open(f, 'rb').read())
+    n = 600 if os.environ.get('VERIF_TIER') == 'thorough' else 120
+    seed = int(os.environ.get('VERIF_SEED', '0') or 0)
+    rc, ver = sh([runner.python_exe(), '-c', 'import sys; print(sys.version)'])
+    key = h.hexdigest() + '|' + ver.strip() + '|%d|%d' % (seed, n)
+    cache = os.path.join(LEAN, '.lake', 'pysem_cache.json')
+    try:
+        c = json.load(open(cache))
+        if c.get('key') == key:
+            return dict(c['result'], cached=True)
+    except Exception:
+        pass
+    t0 = time.time()
+    rc, txt = sh([runner.python_exe(), os.path.join(ROOT, 'harness', 'pysem_check.py'), str(seed), str(n)], timeout=1800)
+    try:
+        res = json.loads(txt.strip().splitlines()[-1])
+    except Exception:
+        res = {'error': 'pysem_check.py failed: ' + txt[-200:]}
+    res['wall_s'] = round(time.time() - t0, 2)
+    try:
+        json.dump({'key': key, 'result': res}, open(cache, 'w'))
+    except Exception:
+        pass
+    return res
+
+
 def source_tie(prop):
     """For each translated unit this property's theorems rest on: tools/py2lean.py rewrites Generated/<unit>.lean from
     the source text; the Props.Src* module proves that translation equal to the hand-written model for all arguments.
@@ -181,6 +212,7 @@ def source_tie(prop):
     except Exception:
         reps = {}
     out = {'held': True, 'units': {}}
+    out['py_semantics'] = py_semantics()
     for what, cfg in SOURCE_TIES.items():
         if prop not in cfg['users']:
             continue
@@ -210,6 +242,10 @@ def source_tie(prop):
         bad = [k for k, v in thms.items() if not set(v) <= ALLOWED_AXIOMS]
         u['held'] = bool(thms) and not bad and rc == 0
         u['status'] = ('held: %s (%d theorems)' % (cfg.get('held_text', 'translation of the source text proved equal to the model'), len(thms))) if u['held'] else 'unavailable: audit failed'
+    if out['py_semantics'].get('n_disagreements') or out['py_semantics'].get('error'):
+        for u in out['units'].values():          # the ties are stated over a semantics that is not CPython's here: informational
+            u['held'] = False
+            u['status'] = 'unavailable: Src/Py.lean disagrees with this interpreter (%s)' % (out['py_semantics'].get('error') or out['py_semantics']['disagreements'][:1])
     out['held'] = all(u['held'] for u in out['units'].values())
     out['status'] = '; '.join('%s — %s' % (k, u['status']) for k, u in out['units'].items())
     out['wall_s'] = round(time.time() - t0, 2)
@@ -844,6 +880,7 @@ def main():
     ap.add_argument('--replay')
     a = ap.parse_args()
     prop, tier = a.prop, a.tier
+    os.environ['VERIF_TIER'] = tier
     seed = int(os.environ.get('VERIF_SEED', '0') or 0)
     t_start = time.time()
     info = {}
